@@ -18,14 +18,16 @@ import (
 	"github.com/ethereum/go-ethereum/rlp"
 	"github.com/ethereum/go-ethereum/trie"
 	"github.com/polynetwork/poly/native/service/header_sync/bsc"
+	"github.com/polynetwork/poly/native/service/header_sync/bytom"
 	heth "github.com/polynetwork/poly/native/service/header_sync/eth"
+	"github.com/polynetwork/poly/native/service/header_sync/heco"
 	"github.com/polynetwork/poly/native/service/header_sync/hsc"
 
 	"verifh/kit/vio"
 )
 
 type posaChain struct {
-	flavour string // "bsc" | "hsc"
+	flavour string // "bsc" | "bytom" (go-ethereum header, chain id in the seal hash) | "hsc" | "heco" (poly eth.Header, period)
 	evmID   *big.Int
 	keys    []*ecdsa.PrivateKey
 	addrs   []ecommon.Address
@@ -90,10 +92,24 @@ func (c *posaChain) header(num uint64, parent, root ecommon.Hash, withVals bool)
 		}
 	}
 	ex = append(ex, make([]byte, 65)...)
-	if c.flavour == "bsc" {
+	if c.flavour == "eth" {
+		// Ethereum PoW header below the London height: constant difficulty (block time 15 s => adjustment factor 0);
+		// the Ethash seal is decided by the verif seal hook, every other header rule stays real.
+		heth.VerifSealHook = func(*heth.Header) (bool, error) { return true, nil }
+		h := &heth.Header{ParentHash: parent, UncleHash: etypes.EmptyUncleHash, Root: root, Number: new(big.Int).SetUint64(num),
+			GasLimit: 10000000, Time: c.t0 + 15*num, Extra: []byte{}, Difficulty: big.NewInt(1000000)}
+		b, err := json.Marshal(h)
+		vio.Must(err)
+		return b, h.Hash()
+	}
+	if c.flavour == "bsc" || c.flavour == "bytom" {
 		h := &etypes.Header{ParentHash: parent, UncleHash: etypes.CalcUncleHash(nil), Coinbase: c.addrs[signer], Root: root,
 			Number: new(big.Int).SetUint64(num), GasLimit: 30000000, Time: c.t0 + num, Extra: ex, Difficulty: big.NewInt(2)}
-		sig, err := crypto.Sign(bsc.SealHash(h, c.evmID).Bytes(), c.keys[signer])
+		sh := bsc.SealHash(h, c.evmID)
+		if c.flavour == "bytom" {
+			sh = bytom.SealHash(h, c.evmID)
+		}
+		sig, err := crypto.Sign(sh.Bytes(), c.keys[signer])
 		vio.Must(err)
 		copy(h.Extra[len(h.Extra)-65:], sig)
 		b, err := json.Marshal(h)
@@ -102,7 +118,11 @@ func (c *posaChain) header(num uint64, parent, root ecommon.Hash, withVals bool)
 	}
 	h := &heth.Header{ParentHash: parent, UncleHash: etypes.CalcUncleHash(nil), Coinbase: c.addrs[signer], Root: root,
 		Number: new(big.Int).SetUint64(num), GasLimit: 30000000, Time: c.t0 + num, Extra: ex, Difficulty: big.NewInt(2)}
-	sig, err := crypto.Sign(hsc.SealHash(h, c.evmID).Bytes(), c.keys[signer])
+	sh := hsc.SealHash(h, c.evmID)
+	if c.flavour == "heco" {
+		sh = heco.SealHash(h, c.evmID)
+	}
+	sig, err := crypto.Sign(sh.Bytes(), c.keys[signer])
 	vio.Must(err)
 	copy(h.Extra[len(h.Extra)-65:], sig)
 	b, err := json.Marshal(h)
@@ -114,14 +134,25 @@ func (c *posaChain) buildGenesis(num uint64) {
 	hb, hh := c.header(num, ecommon.Hash{}, ecommon.Hash{}, true)
 	var g []byte
 	var err error
-	if c.flavour == "bsc" {
+	switch c.flavour {
+	case "eth":
+		g = hb
+	case "bsc":
 		var h etypes.Header
 		vio.Must(json.Unmarshal(hb, &h))
 		g, err = json.Marshal(&bsc.GenesisHeader{Header: h, PrevValidators: []bsc.HeightAndValidators{{Height: big.NewInt(0), Validators: c.addrs}}})
-	} else {
+	case "bytom":
+		var h etypes.Header
+		vio.Must(json.Unmarshal(hb, &h))
+		g, err = json.Marshal(&bytom.GenesisHeader{Header: h, PrevValidators: []bytom.HeightAndValidators{{Height: big.NewInt(0), Validators: c.addrs}}})
+	case "hsc":
 		var h heth.Header
 		vio.Must(json.Unmarshal(hb, &h))
 		g, err = json.Marshal(&hsc.GenesisHeader{Header: h, PrevValidators: []hsc.HeightAndValidators{{Height: big.NewInt(0), Validators: c.addrs}}})
+	default:
+		var h heth.Header
+		vio.Must(json.Unmarshal(hb, &h))
+		g, err = json.Marshal(&heco.GenesisHeader{Header: h, PrevValidators: []heco.HeightAndValidators{{Height: big.NewInt(0), Validators: c.addrs}}})
 	}
 	vio.Must(err)
 	c.genesis = g
@@ -200,7 +231,10 @@ func (c *posaChain) addEmpty() {
 func (c *posaChain) extraInfo() []byte {
 	var b []byte
 	var err error
-	if c.flavour == "bsc" {
+	if c.flavour == "eth" {
+		return nil
+	}
+	if c.flavour == "bsc" || c.flavour == "bytom" {
 		b, err = json.Marshal(&bsc.ExtraInfo{ChainID: c.evmID})
 	} else {
 		b, err = json.Marshal(&hsc.ExtraInfo{ChainID: c.evmID, Period: 1})
